@@ -4,7 +4,7 @@ set -u
 PATCH="$1"; shift
 cd /verif
 git -C /repo diff --quiet || { echo "/repo has uncommitted changes"; exit 2; }
-git -C /repo apply "$PATCH" || { echo "patch does not apply"; exit 2; }
+git -C /repo apply "$(readlink -f "$PATCH")" || { echo "patch does not apply"; exit 2; }
 trap 'git -C /repo checkout -- . ' EXIT
 for p in "$@"; do
   out=$(./check "$p" --tier "${TIER:-quick}" 2>&1); rc=$?
